@@ -32,4 +32,6 @@ int fam_trsm(const vh_args_t *a);
 int fam_inv(const vh_args_t *a);
 int fam_solve(const vh_args_t *a);
 int fam_kernel(const vh_args_t *a);
+int fam_kernels(const vh_args_t *a);
+int fam_alloc(const vh_args_t *a);
 #endif
